@@ -17,7 +17,11 @@ testing (labelled, NOT proof): whole-run determinism -- the same search is
         executed twice in separate processes with different environment size,
         MALLOC_PERTURB_ / ASan malloc fill pattern and ASLR; the transcripts
         (every H1 draw, every after_generation population dump, best,
-        summary without wall-clock fields) must be byte-identical.
+        summary without wall-clock fields) must be byte-identical.  Two more
+        legs: TIMING (the same run held up for 2.3 s of wall-clock must not
+        change anything) and IN-PROCESS (the same seed executed repeatedly in
+        one process with the problem / symbol set built afresh, also after
+        unrelated symbols were created: hidden static state).
 """
 import json
 import os
@@ -334,6 +338,96 @@ def double_runs(ck, exes, cfgs):
     return total
 
 
+# ---- timing leg: the same run with the process held up for > 2 s (the evolution loop has a "more than two seconds
+# since the last message" branch; a loaded machine / slow evaluator takes it, a fast test run never does)
+def timing_configs(ck):
+    rng = ck.rng
+    cfgs = [("ga", rng.choice([1, 7]), {"gen": 14, "pop": 30, "sleepeval": 100, "sleepms": 2300}),
+            ("sr_alps", rng.choice([1, 3]), {"gen": 70, "pop": 20, "layers": 4, "code": 20, "sleepgen": 1, "sleepms": 2300}),
+            ("sr_std", rng.choice([1, 5]), {"gen": 14, "pop": 30, "code": 20, "sleepgen": 1, "sleepms": 2300})]
+    if ck.thorough:
+        cfgs += [("de", 3, {"gen": 14, "pop": 30, "sleepeval": 200, "sleepms": 2300}),
+                 ("class_alps", 2, {"gen": 40, "pop": 20, "layers": 3, "code": 20, "sleepgen": 2, "sleepms": 2300}),
+                 ("sr_mse", 4, {"gen": 10, "pop": 40, "sleepgen": 0, "sleepms": 4500})]
+    return cfgs
+
+
+def first_diff(a, b):
+    la, lb = a.split(b"\n"), b.split(b"\n")
+    i = next((i for i in range(min(len(la), len(lb))) if la[i] != lb[i]), min(len(la), len(lb)))
+    return i, (la[i].decode(errors="replace")[:300] if i < len(la) else None), \
+        (lb[i].decode(errors="replace")[:300] if i < len(lb) else None), \
+        next((l.decode(errors="replace")[:60] for l in reversed(la[:i + 1]) if l.startswith(b"G ")), None)
+
+
+def timing_runs(ck, exe, cfgs):
+    import concurrent.futures
+
+    def one(cfg):
+        kind, seed, par = cfg
+        base = {k: v for k, v in par.items() if not k.startswith("sleep")}
+        return cfg, transcript(exe, kind, seed, base, 0), transcript(exe, kind, seed, par, 0)
+    with concurrent.futures.ThreadPoolExecutor(max(1, len(cfgs))) as ex:
+        results = list(ex.map(one, cfgs))
+    for (kind, seed, par), (rc0, a, e0, args0), (rc1, b, e1, args1) in results:
+        ck.count()
+        cmd = " ".join(args1[1:])
+        if rc0 != 0 or rc1 != 0:
+            ck.add_violation("timing-run:%s:abort" % kind, "search `%s` aborts (rc %d/%d)" % (cmd, rc0, rc1),
+                             {"timing_run": {"kind": kind, "seed": seed, "par": par}, "stderr": (e0 or e1)[-1500:]})
+            continue
+        ck.coverage.setdefault("timing_run", []).append({"cmd": cmd, "generations": a.count(b"\nG "), "bytes": len(a)})
+        ck.nontriv(("timing", cmd))
+        if a != b:
+            i, x, y, g = first_diff(a, b)
+            ck.add_violation("timing-run:%s:transcripts-differ" % kind,
+                             "`%s`: the same seeded run held up for %s ms (wall-clock only) differs from the undisturbed run "
+                             "from transcript line %d on (%s)" % (cmd, par["sleepms"], i, g),
+                             {"timing_run": {"kind": kind, "seed": seed, "par": par}, "line": i, "undisturbed": x, "held_up": y,
+                              "generation_block": g})
+
+
+# ---- in-process leg: the same seeded execution several times in ONE process, problem / symbol set built afresh
+INPROC_KINDS = ["inproc_mep_fixed", "inproc_mep_distinct", "inproc_mep_random", "inproc_ga", "inproc_de", "inproc_sr",
+                "inproc_sr_alps"]
+
+
+def inproc_configs(ck):
+    rng = ck.rng
+    out = []
+    for kind in INPROC_KINDS:
+        for j in range(3 if ck.thorough else 1):
+            par = {"gen": 6 + 2 * j, "pop": rng.choice([20, 30, 40]), "code": rng.choice([12, 20])}
+            out.append((kind, rng.choice([1, 2, rng.getrandbits(31)]), par))
+    return out
+
+
+def inproc_runs(ck, exe, cfgs):
+    for kind, seed, par in cfgs:
+        rc, out, err, args = transcript(exe, kind, seed, par, 0)
+        ck.count()
+        cmd = " ".join(args[1:])
+        if rc != 0:
+            ck.add_violation("in-process:%s:abort" % kind, "`%s` aborts (rc %d)" % (cmd, rc),
+                             {"inproc_run": {"kind": kind, "seed": seed, "par": par}, "stderr": err[-1500:]})
+            continue
+        secs = out.split(b"=== ")[1:]
+        labels = [s.split(b"\n", 1)[0].decode() for s in secs]
+        bodies = [s.split(b"\n", 1)[1] if b"\n" in s else b"" for s in secs]
+        ck.coverage.setdefault("in_process_run", []).append({"cmd": cmd, "executions": labels, "bytes": len(out)})
+        if len(bodies) >= 2 and bodies[0].count(b"\nG ") > 0:
+            ck.nontriv(("inproc", cmd))
+        for lab, b in zip(labels[1:], bodies[1:]):
+            if b != bodies[0]:
+                i, x, y, g = first_diff(bodies[0], b)
+                ck.add_violation("in-process:%s:executions-differ" % kind,
+                                 "`%s`: two executions with the same seed in one process differ (%s vs. %s) from transcript "
+                                 "line %d on (%s)" % (cmd, labels[0], lab, i, g),
+                                 {"inproc_run": {"kind": kind, "seed": seed, "par": par}, "execution": lab, "line": i,
+                                  "first": x, "other": y, "generation_block": g})
+                break
+
+
 # ----------------------------------------------------------------- randomness sources lint
 ALLOWED_SOURCES = {
     ("kernel/random.cc", "std::random_device"),          # randomize(): explicitly non-deterministic by contract
@@ -393,7 +487,9 @@ def run(ck):
         "shows it is necessary)",
         "PARTIAL: whole-run determinism (libstdc++ distributions, evolution, evaluators, containers, no uninitialised or "
         "address-dependent behaviour) is not a theorem; it is TESTED by the double-run comparison "
-        "(separate processes, different environment size, MALLOC_PERTURB_/ASan malloc fill, ASLR) on a finite set of configurations",
+        "(separate processes, different environment size, MALLOC_PERTURB_/ASan malloc fill, reversed heap order, ASLR), a timing leg "
+        "(run held up > 2 s) and an in-process leg (repeated executions with fresh problems in one process) on a finite set of "
+        "configurations",
     ]
     harness = retry_build(vv.build_harness, "h_rng")
     model = vv.ocaml_model("Rng")
@@ -401,6 +497,7 @@ def run(ck):
     exes = [("asan", runner), ("plain", retry_build(vv.build_harness, "h_rng_run", san="plain"))]
 
     rp = json.load(open(ck.replay_path)) if ck.replay_path else None
+    tcfgs, icfgs = [], []
     if rp and rp.get("cases"):
         cases = [(l, {"t": "replay"}) for l in rp["cases"]]
         # a replayed line is judged by the same oracles: rebuild its meta
@@ -409,9 +506,17 @@ def run(ck):
     elif rp and rp.get("run"):
         cases = []
         cfgs = [(rp["run"]["kind"], rp["run"]["seed"], rp["run"]["par"])]
+    elif rp and rp.get("timing_run"):
+        cases, cfgs = [], []
+        tcfgs = [(rp["timing_run"]["kind"], rp["timing_run"]["seed"], rp["timing_run"]["par"])]
+    elif rp and rp.get("inproc_run"):
+        cases, cfgs = [], []
+        icfgs = [(rp["inproc_run"]["kind"], rp["inproc_run"]["seed"], rp["inproc_run"]["par"])]
     else:
         cases = gen_cases(ck)
         cfgs = run_configs(ck)
+        tcfgs = timing_configs(ck)
+        icfgs = inproc_configs(ck)
 
     lines = [c[0] for c in cases]
     # operator>> cases run in their own harness processes: when that operator executes undefined behaviour every such
@@ -434,6 +539,8 @@ def run(ck):
 
     nruns = double_runs(ck, exes, cfgs)
     ck.coverage["double_run_pairs"] = nruns
+    timing_runs(ck, runner, tcfgs)
+    inproc_runs(ck, runner, icfgs)
     ck.coverage["double_run_label"] = "TESTING (not proof): whole-run determinism on the listed configurations only"
 
     unexpected, found = randomness_lint(L["snap"])
@@ -447,7 +554,10 @@ def run(ck):
              "save/load at random points with varied white space and trailing text, malformed streams, the decimal codec on "
              "0, 10^k+-1, 2^64-1, 2^64, signs; non-trivial = distinct stream/reload/load/seed case that produces outputs "
              "(a reload case needs >= 4 outputs so that state[3] matters). Run cases (TESTING): one double run per "
-             "(search kind, seed, parameter set); non-trivial = a run with draws and generations",
+             "(search kind, seed, parameter set); a timing leg (same run held up > 2 s of wall-clock inside a callback / a fitness "
+             "evaluation, std and multi-layer ALPS strategies); an in-process leg (same seed executed several times in one "
+             "process with the problem and symbol set built afresh, test_evaluator kinds fixed/distinct/random, ga, de, symbolic "
+             "regression); non-trivial = a run with draws and generations",
         explanation="proof for the generator and its text codec; whole-run determinism is partial (tested, not proved)")
 
 
